@@ -121,8 +121,19 @@ func Open(name string) (*File, error) {
 
 // Create replaces os.Create.
 func Create(name string) (*File, error) {
+	return OpenFile(name, os.O_RDWR|os.O_CREATE|os.O_TRUNC, 0o666)
+}
+
+// OpenFile replaces os.OpenFile. A FileSpec with Data at a path that is
+// opened for writing is a file that already exists with that content: it is
+// only emptied when the caller asks for O_TRUNC, exactly as on a real disk.
+func OpenFile(name string, flag int, perm os.FileMode) (*File, error) {
+	writing := flag&(os.O_WRONLY|os.O_RDWR|os.O_CREATE|os.O_TRUNC|os.O_APPEND) != 0
+	if !writing {
+		return Open(name)
+	}
 	if !active {
-		fp, err := os.Create(name)
+		fp, err := os.OpenFile(name, flag, perm)
 		if err != nil {
 			return nil, err
 		}
@@ -131,30 +142,59 @@ func Create(name string) (*File, error) {
 	if name == "" {
 		return nil, &fs.PathError{Op: "open", Path: name, Err: syscall.ENOENT}
 	}
-	if fsp := lookup(name); fsp != nil && fsp.CreateErr != "" {
+	fsp := lookup(name)
+	if fsp != nil && fsp.CreateErr != "" {
 		journal.Faults = append(journal.Faults, "create:"+fsp.CreateErr+":"+name)
 		return nil, &fs.PathError{Op: "open", Path: name, Err: errnoOf(fsp.CreateErr)}
+	}
+	exists := fsp != nil && fsp.OpenErr == "" && fsp.Data != nil
+	// a file created earlier in this process also exists
+	var prior *Created
+	for _, c := range created {
+		if c.Virtual == name {
+			prior = c
+			exists = true
+		}
+	}
+	if !exists && flag&os.O_CREATE == 0 {
+		journal.Faults = append(journal.Faults, "open:ENOENT:"+name)
+		return nil, &fs.PathError{Op: "open", Path: name, Err: syscall.ENOENT}
+	}
+	if exists && flag&os.O_EXCL != 0 && flag&os.O_CREATE != 0 {
+		return nil, &fs.PathError{Op: "open", Path: name, Err: syscall.EEXIST}
 	}
 	dir := step.OutDir
 	if dir == "" {
 		dir = "."
 	}
-	realName := filepath.Join(dir, "created."+strconv.Itoa(len(created)))
-	fp, err := os.Create(realName)
+	var cr *Created
+	if prior != nil {
+		cr = prior
+	} else {
+		cr = &Created{Virtual: name, Real: filepath.Join(dir, "created."+strconv.Itoa(len(created)))}
+		created = append(created, cr)
+		var initial []byte
+		if exists {
+			initial = fsp.Data
+			journal.Faults = append(journal.Faults, "create:EXISTING:"+name)
+		}
+		if err := os.WriteFile(cr.Real, initial, 0o644); err != nil {
+			trouble("create backing file: " + err.Error())
+		}
+	}
+	rflag := os.O_RDWR
+	if flag&os.O_TRUNC != 0 {
+		rflag |= os.O_TRUNC
+	}
+	if flag&os.O_APPEND != 0 {
+		rflag |= os.O_APPEND
+	}
+	fp, err := os.OpenFile(cr.Real, rflag, 0o644)
 	if err != nil {
-		trouble("create backing file: " + err.Error())
+		trouble("open backing file: " + err.Error())
 	}
-	cr := &Created{Virtual: name, Real: realName}
-	created = append(created, cr)
+	cr.Closed = false
 	return &File{name: name, real: fp, cr: cr}, nil
-}
-
-// OpenFile replaces os.OpenFile.
-func OpenFile(name string, flag int, perm os.FileMode) (*File, error) {
-	if flag&(os.O_WRONLY|os.O_RDWR|os.O_CREATE|os.O_TRUNC|os.O_APPEND) != 0 {
-		return Create(name)
-	}
-	return Open(name)
 }
 
 // ReadFile replaces os.ReadFile.
